@@ -422,6 +422,13 @@ def run_havoc(spec, res, pristine, budget):
         try:
             E2 = Election(U.profile(), election_options(spec))
             E2.count()
+            # formatting state: the real __str__ / report() on concrete values of the freshly initialised class
+            real_str = shims.ORIG_STR.get(E2.V)
+            if real_str is not None:
+                for v_ in (E2.V(0), E2.V(1), E2.V(3) / E2.V(7), E2.V(0) - E2.V(2) / E2.V(3)):
+                    real_str(v_)
+            if not isinstance(getattr(E2.V, 'maxDiff', 0), SymInt):
+                E2.V.report()
         except Stale as ex:
             key = 'stale-read:%s' % ex
         if key is None:
